@@ -23,6 +23,8 @@ pub fn run(args: &[&str]) -> String {
             Ok(c) => cps.push(format!("{}", c as u32)),
             Err(CharReaderError::Utf8Error(_)) => { end = "UTF8"; break; }
             Err(CharReaderError::IoError(_)) => { end = "IO"; break; }
+            #[allow(unreachable_patterns)]
+            Err(_) => { end = "OTHER"; break; }
         }
     }
     format!("{}\t{}", cps.join(","), end)
